@@ -9,6 +9,7 @@ import DracoProofs.EbChain
 import DracoProofs.EbSeams
 import DracoProofs.EbCreateProps
 import DracoProofs.EbAttViews
+import DracoProofs.EbRoundtripExample
 /-
   C01 (staging) — facts about the Edgebreaker mesh decoder model (DracoModel/Eb*.lean).
   The model is tied to the real decoder by the correspondence of C01 (tools/props/ebcases.py);
@@ -122,6 +123,9 @@ example : intSqrt 1000000 = 1000 ∧ intSqrt 999999 = 999 ∧ intSqrt (2 ^ 64 - 
       * `eb_seams_correspond`, `eb_seam_flags_correspond`, `eb_att_views_iso`: from CTIso and the bit buffers to the
         decoder's seam flags, and from there (equivariance of `RecomputeVertices`) to the isomorphism of the
         ATTRIBUTE views; `eb_base_view_structural`: `OppInvol` / `Hedge` from `CornerTable.create`;
+      * `eb_roundtrip_conditional_partial`: the STREAM-LEVEL conditional round trip (both decodes consume exactly the
+        stream, RoundTripOK accepts) from the connectivity link, decoder-side structural facts, value conditions, the
+        row correspondence and traversal coverage — with a fully discharged instance on a one-triangle stream;
       * `eb_ctiso_sound`: the Boolean `ctIso` the op evaluates implies the Prop-level isomorphism `CTIso`.
       Missing for the full implication (evaluated per case — `rt-ok`, `iso-ok`, `hyp-ok` —, not proved):
       `assign_points_correspond` (the
@@ -721,6 +725,61 @@ example : ∃ ψ', TVIso { c2v := #[0, 1, 2], opp := #[inv, inv, inv], seam := #
     _ _ exRecompute1
 
 end AttViewsExample
+
+open Draco.EbEnc Draco.EbEnc.FaceCorr in
+/-- (b) **eb_roundtrip_conditional_partial** — the stream-level conditional round trip.  For a successful run of the
+    Edgebreaker encoder model, IF the CONNECTIVITY LINK holds (`hconn`: the decoder's connectivity stage reads the encoder's
+    connectivity bytes and builds `mesh`, `hnf`: with as many faces as the encoder processed — the only hypothesis about
+    running a codec stage on bytes; evaluated per case as `iso-ok`), the decoder-side structural facts (`hdec`: ids in range
+    and `sides` are the decoder's own sequences / point maps; `hids`), the value conditions (`hvals`: raw lengths; value
+    blocks = `eb_value_block_conditional_iso`, `valuesOK_of_item`), the input inside the format's domain (`hatt`, `huid`,
+    `hproc`, `hfits`), `hs` (the plan's attributes are the input attributes in stream order), the ROW CORRESPONDENCE `hrows`
+    of every attribute (`row_of_item_kind0…3` from `TupleSetup`) and `hcover` (the traversal reached every non-degenerate
+    face; evaluated as `coverage`), THEN both decodes of the stream followed by arbitrary bytes succeed, consume exactly
+    the stream, return the metadata, and `Spec.checkCore .edgebreaker` (RoundTripOK) accepts.  Proved inside: the byte
+    layout of the attribute section, descriptors, transform parameters, the whole attribute section of the decoder, the
+    `matchOne` bookkeeping, the tuple and face correspondences, the multiset argument. -/
+theorem eb_roundtrip_conditional_partial (ch : EbChoices) (g : Geometry) (md : Option GeometryMetadata) (o : EbOpts)
+    (enc : Encoded) (henc : encodeEdgebreaker ch g md o = .ok enc) (hmd : ∀ m, md = some m → m.WF')
+    (mesh : Mesh) (sides : List (SeqOut × Array Nat)) (hsides : enc.couts.size = sides.length)
+    (hconn : ∀ coder, traversalCoder o g.faces.length = some coder →
+      Runs decodeConnectivity 514 ([coder] ++ enc.conn.bytes) mesh 514)
+    (hnf : mesh.numFaces = enc.conn.processed.size)
+    (plan : AttPlan) (hplan : plan = planOf o g.atts.toArray enc.conn enc.controllers enc.couts.toList sides)
+    (hatt : ∀ a, a < g.atts.toArray.size → EbAttOK (g.atts.toArray[a]!) (o.base.att a))
+    (hids : plan.Pairwise fun a b =>
+      (0 ≤ b.dec.attDataId → a.dec.attDataId ≠ b.dec.attDataId) ∧ (b.dec.attDataId < 0 → 0 ≤ a.dec.attDataId))
+    (hdec : ∀ d ∈ plan, DecoderOK mesh d)
+    (hvals : ∀ (i k : Nat) (hi : i < plan.length) (hk : k < plan[i].items.length),
+      ValuesOK mesh plan[i] (parentAt plan i k) plan[i].items[k])
+    (huid : (g.atts.map (·.uniqueId)).Nodup)
+    {item : Nat → Nat × Array Nat × AttItem} {encI : Nat → EncItem} (hs : PlanSetting g o plan item encI)
+    (hrows : RowsCorr g item mesh.faces (SeqEnc.flattenFaces g.faces).toArray mesh.numFaces (phi enc.conn.processed))
+    (hproc : ∀ i, i < enc.conn.processed.size → enc.conn.processed[i]! < 3 * g.faces.length)
+    (hfits : 3 * g.faces.length ≤ inv)
+    (hcover : ∀ j (hj : j < g.faces.length), nondegFace g (g.faces[j]) = true →
+      ∃ i, i < (facesOf mesh).length ∧ enc.conn.processed[i]! / 3 = j)
+    (extra : Bytes) :
+    ∃ st st',
+      decodeGeometry {} { rest := enc.bytes ++ extra } = (some ⟨planGeometry {} mesh plan, md⟩, st) ∧ st.rest = extra ∧
+      decodeGeometry { skip := SeqEnc.allTypes } { rest := enc.bytes ++ extra } =
+        (some ⟨planGeometry { skip := SeqEnc.allTypes } mesh plan, md⟩, st') ∧ st'.rest = extra ∧
+      Spec.checkCore .edgebreaker (SeqEnc.quantReq g o.base) g (planGeometry {} mesh plan)
+        (planGeometry { skip := SeqEnc.allTypes } mesh plan) = true :=
+  Draco.EbEnc.eb_roundtrip_conditional_partial ch g md o enc henc hmd mesh sides hsides hconn hnf plan hplan hatt hids hdec
+    hvals huid hs hrows hproc hfits hcover extra
+
+open Draco.EbEnc Draco.EbEnc.ConnExample in
+/-- non-vacuity: ONE TRIANGLE with an int32 POSITION attribute — EVERY hypothesis is discharged (the connectivity link
+    `exHconn` by stepping the decoder through its connectivity stage for every continuation of the stream, the rest by
+    kernel evaluation): the 58-byte stream `exBytes` followed by arbitrary bytes decodes, with and without transforms
+    skipped, to the explicit geometry `exDecoded` (points renumbered in traversal order), and RoundTripOK accepts -/
+example (extra : Bytes) : ∃ st st',
+    decodeGeometry {} { rest := exBytes ++ extra } = (some ⟨exDecoded, none⟩, st) ∧ st.rest = extra ∧
+    decodeGeometry { skip := SeqEnc.allTypes } { rest := exBytes ++ extra } = (some ⟨exDecoded, none⟩, st') ∧
+    st'.rest = extra ∧
+    Spec.checkCore .edgebreaker (SeqEnc.quantReq exG exO.base) exG exDecoded exDecoded = true :=
+  exRoundtrip' extra
 
 open Draco.EbEnc in
 /-- (b) **CTIso as a proposition**: the Boolean checker the op evaluates on every case (`iso-ok`) implies the
